@@ -161,7 +161,7 @@ func shapeClasses(r *hx.Rng, g *cx.G) [][]int {
 			cls = [][]int{cx.Identity(n)[:k], cx.Identity(n)[k : n-1], {n - 1}}
 		}
 	default: // random classes with singletons spliced in at the front, in the middle and at the end
-		cls = randomClasses(r, n)
+		cls = classesAnySize(r, n)
 		var out [][]int
 		for _, c := range cls {
 			if len(c) >= 2 && r.Chance(1, 2) {
@@ -221,7 +221,66 @@ func unionOfComponents(r *hx.Rng, maxN int) *cx.G {
 	}
 }
 
+// hubTwins: a near-regular core, two or three twin hubs joined to the whole core, and a few
+// low-degree vertices hung on the core, numbered in this order (the graphs a canonical-deletion
+// search builds); classes along that structure with the low-degree class(es) last.  Several
+// leaves with long common certificate prefixes and cut-off extensions (the a4bdb37 shape).
+func hubTwins(r *hx.Rng, maxN int) (*cx.G, [][]int) {
+	c := r.Range(5, 10)
+	h := r.Range(2, 3)
+	l := r.Range(1, 3)
+	for c+h+l > maxN {
+		c--
+	}
+	n := c + h + l
+	g := cx.New(n)
+	if r.Chance(3, 4) {
+		addEdges(g, cx.RandomRegularSwitch(r, c, r.Range(2, 4)), 0)
+	} else {
+		addEdges(g, cx.RandomGnp(r, c, 1, 3), 0)
+	}
+	for x := c; x < c+h; x++ {
+		for v := 0; v < c; v++ {
+			g.Add(x, v)
+		}
+		if x > c && r.Chance(1, 3) {
+			g.Add(x, x-1)
+		}
+	}
+	for x := c + h; x < n; x++ {
+		for _, v := range r.Perm(c)[:r.Range(1, 3)] {
+			g.Add(x, v)
+		}
+	}
+	id := cx.Identity(n)
+	var cls [][]int
+	switch r.Intn(8) {
+	case 0, 5, 6, 7:
+		cls = [][]int{id[:c+h], id[c+h:]}
+	case 1:
+		cls = [][]int{id[:c], id[c : c+h], id[c+h:]}
+	case 2:
+		cls = [][]int{id[:c+h]}
+		for x := c + h; x < n; x++ {
+			cls = append(cls, []int{x})
+		}
+	case 3:
+		cls = [][]int{id[:c+h+l-1], {n - 1}}
+	default:
+		cls = shapeClasses(r, g)
+	}
+	if r.Chance(1, 4) { // relabelled, the classes carried along (members then unsorted)
+		p := r.Perm(n)
+		return g.Relabel(p), cx.RelabelClasses(cls, p, r.Intn(3))
+	}
+	return g, cls
+}
+
 func genShapes(g *hx.Gen, emit func(fam string, gr *cx.G, cls [][]int)) {
+	for i := 0; i < g.Pick(2500, 30000); i++ {
+		gr, cls := hubTwins(g.Rng, g.Pick(14, 16))
+		emit("hubtwins", gr, cls)
+	}
 	for i := 0; i < g.Pick(1800, 20000); i++ {
 		gr := twinnyGraph(g.Rng, g.Rng.Range(4, g.Pick(12, 14)))
 		if g.Rng.Chance(1, 3) {
